@@ -8,12 +8,12 @@ from ..stages import *
 from . import _placement as P
 
 
-def gen_k(binp, seed, n, max_deaths=4):
+def gen_k(binp, seed, n, kind, max_deaths=4):
     """(cases, impl, deaths): a case whose run killed / hung the process gets the result [0] (as a caught panic)."""
     cases, impl, deaths = [], [], []
     start = 0
     while start < n:
-        lines, status = P.run_stream('%s c05 cases %d %d %d' % (binp, seed, n - start, start), idle_timeout=3.0)
+        lines, status = P.run_stream('%s c05 cases %d %d %d %d' % (binp, seed, n - start, start, kind), idle_timeout=3.0)
         k = 0
         pending = None
         for line in lines:
@@ -45,7 +45,7 @@ def placement_k(rep, pid, binp, seed, n, kind):
     kind = 1 (display:none) or 2 (absolute): which skipped children make a case count as non-trivial for this property.
     Returns the list of disagreements (case, impl, model)."""
     try:
-        cases, impl, deaths = gen_k(binp, seed, n)
+        cases, impl, deaths = gen_k(binp, seed, n, kind)
         model = P.model_eval(pid, cases)
     except RuntimeError as ex:
         rep.add_broken('correspondence', 'placement K (vh c05 cases)', str(ex)[-1500:])
